@@ -80,6 +80,17 @@ func buildOverlay(spec *HarnessSpec, verifDir string) (*overlaySet, error) {
 	ov := &overlaySet{files: map[string][]byte{}, pkgName: pkgName}
 	ov.files[filepath.Join(dir, "zz_verif_prims.go")] = []byte(strings.Replace(primsSource, "package PKG", "package "+pkgName, 1))
 	for _, f := range spec.Files {
+		// "other/pkg/dir::path" places a support file (seam targets, exported hooks; no nd* calls)
+		// into another package of /repo
+		tdir, tname, primary := dir, pkgName, true
+		if i := strings.Index(f, "::"); i >= 0 {
+			tdir = filepath.Join(repoDir, f[:i])
+			f = f[i+2:]
+			primary = false
+			if tname, err = packageNameOf(tdir); err != nil {
+				return nil, err
+			}
+		}
 		p := f
 		if !filepath.IsAbs(p) {
 			p = filepath.Join(verifDir, f)
@@ -88,11 +99,13 @@ func buildOverlay(spec *HarnessSpec, verifDir string) (*overlaySet, error) {
 		if err != nil {
 			return nil, err
 		}
-		b = bytes.Replace(b, []byte("package PKG\n"), []byte("package "+pkgName+"\n"), 1)
-		for _, m := range harnessFuncRe.FindAllSubmatch(b, -1) {
-			ov.harnessNames = append(ov.harnessNames, string(m[1]))
+		b = bytes.Replace(b, []byte("package PKG\n"), []byte("package "+tname+"\n"), 1)
+		if primary {
+			for _, m := range harnessFuncRe.FindAllSubmatch(b, -1) {
+				ov.harnessNames = append(ov.harnessNames, string(m[1]))
+			}
 		}
-		ov.files[filepath.Join(dir, "zz_verif_"+filepath.Base(p))] = b
+		ov.files[filepath.Join(tdir, "zz_verif_"+filepath.Base(p))] = b
 	}
 	sort.Strings(ov.harnessNames)
 	// seams, grouped by file
